@@ -6,6 +6,7 @@ package main
 // not loaded; syncing from a truncated peer.
 
 import (
+	"strings"
 	"fmt"
 
 	"github.com/bartossh/Computantis/src/accountant"
@@ -116,7 +117,7 @@ func syncSource(c *Ctx, shape string) (*World, *Node) {
 
 func init() {
 	sections["sync"] = func(c *Ctx) error {
-		c.Rep.Rule = "source ledgers (genesis only, chain, two-node braid with several tips) streamed by the real StreamDAG and loaded by the real LoadDag in stream / shuffled / reversed order; ledger, genesis wallet, index and balances compared; the same follow-up gossip offered to both; every single corruption (duplicate vertex, duplicate transaction, missing parent, second self-sealed vertex, empty transaction, non-canonical amount) must leave the node not loaded; sync from a truncated peer; non-trivial = distinct (shape, order) or corruption kind"
+		c.Rep.Rule = "source ledgers (genesis only, chain, two-node braid with several tips) streamed by the real StreamDAG and loaded by the real LoadDag in stream / shuffled / reversed order; ledger, genesis wallet, index and balances compared; the same follow-up gossip offered to both; every single corruption (duplicate vertex, duplicate transaction, missing parent, second self-sealed vertex with and without parents, empty transaction, non-canonical amount) must leave the node not loaded; sync from a truncated peer; non-trivial = distinct (shape, order) or corruption kind"
 		for _, shape := range []string{"genesis-only", "chain", "braid", "diamonds", "random-dag"} {
 			for _, order := range []string{"stream", "shuffled", "reversed"} {
 				w, src := syncSource(c, shape)
@@ -176,7 +177,7 @@ func init() {
 			}
 		}
 		// ---- single corruptions
-		for _, kind := range []string{"dup-vertex", "dup-transaction", "missing-parent", "second-self-sealed", "empty-transaction", "non-canonical"} {
+		for _, kind := range []string{"dup-vertex", "dup-transaction", "missing-parent", "second-self-sealed", "second-self-sealed-parentless", "empty-transaction", "non-canonical"} {
 			w, src := syncSource(c, "chain")
 			info := map[string]interface{}{"section": "sync", "corruption": kind}
 			c.Mark(info)
@@ -195,6 +196,11 @@ func init() {
 				t := w.NewTrx(w.wallets[2], w.wallets[1].Address(), spice.Melange{}, []byte("x"))
 				v, _ := accountant.NewVertex(t, mid.Hash, mid.Hash, mid.Weight+1, w.wallets[2])
 				vs = append(vs, &v)
+			case "second-self-sealed-parentless":
+				// looks like a second genesis: no parents, sealed by its own issuer
+				t := w.NewTrx(w.wallets[2], w.wallets[1].Address(), spice.Melange{Currency: 777}, nil)
+				v, _ := accountant.NewVertex(t, [32]byte{}, [32]byte{}, 0, w.wallets[2])
+				vs = append(vs, &v)
 			case "empty-transaction":
 				t := w.NewTrx(w.wallets[1], w.wallets[2].Address(), spice.Melange{}, nil)
 				v, _ := accountant.NewVertex(t, mid.Hash, mid.Hash, mid.Weight+1, w.wallets[2])
@@ -209,6 +215,9 @@ func init() {
 			c.Distinct("corrupt/" + kind)
 			if dst.ab.DagLoaded() || err == nil {
 				c.Violate("C14", "malformed-stream-accepted:"+kind, fmt.Sprintf("LoadDag of a stream with %s: err=%v loaded=%v", kind, err, dst.ab.DagLoaded()), info)
+				if strings.HasPrefix(kind, "second-self-sealed") {
+					c.Violate("C10", "self-sealed-vertex-accepted-on-sync:"+kind, fmt.Sprintf("a synced ledger holds a second vertex sealed by its own issuer (%s)", kind), info)
+				}
 			}
 			// a node that is not loaded refuses everything
 			if e := w.Add(dst, mid); dst.ab.DagLoaded() == false && errTag(e) != "notLoaded" {
